@@ -15,7 +15,7 @@ GROUP = dict(
     extra_structs={DIT: 'struct @ { struct Dep *p; };'},
     trivial_copy=[DIT],
     extern_re=[r'anyflow::GraphData::', r'anyflow::GraphVertex::closure', r'anyflow::GraphProcessor::', r'anyflow::ClosureContext::'],
-    roots=[D + '::activate', D + '::ready', D + '::check_established', V + '::activate', V + '::ready'],
+    roots=[D + '::activate', D + '::ready', D + '::check_established', V + '::activate', V + '::ready', V + '::reset', D + '::reset'],
     reviewed_compiler_conditionals=[],
     assumptions=['SC; interleavings in which preemptions nest (a preempted party resumes after the preempting ones finished), switch points at every atomic operation and every read of shared data state',
                  'no party fails (acquire_*_depend succeed, recursive_activate returns 0); GraphData::release sets the ready flag before it tells the successor dependencies',
@@ -23,6 +23,8 @@ GROUP = dict(
     jobs=[
         dict(id='C05.dependency.lemma', harness='lemma_dependency_finished_once', kind='lemma', unwind=3, backend='cadical', timeout=900, defines=['VF_LEMMA 1']),
         dict(id='C05.vertex.activate', enforce='Vertex_activate', replace=['Dep_activate'], loops=True, backend='cadical', defines=['VF_VERTEX 1']),
+        dict(id='C05.vertex.reset', enforce='Vertex_reset', replace=['Dep_reset'], loops=True, backend='cadical', defines=['VF_VERTEX 1']),
+        dict(id='C05.dependency.reset', enforce='Dep_reset', backend='cadical', defines=['VF_VERTEX 1']),
         dict(id='C05.vertex.ready', enforce='Vertex_ready', backend='cadical', defines=['VF_VERTEX 1']),
     ],
 )
